@@ -28,6 +28,7 @@ EXPLANATION = (
     "operands (same shape once the operand is abstracted) are mirror images of each other — `chain(pad(a.additional))` for a, "
     "`chain(pad(b.additional))` for b."
     " (D9) two closure parameters that are compared as positions come from `enumerate()` over the same sequence; D5 also reads a table of (type, predicate) rows, D2 also the `(Some, None)`/`(None, Some)` arms of paired options."
+    " D5 is decided by evaluating the fn that takes the schema's `type` and a JSON value for every JSON Schema type x every kind of JSON value, alone and inside a type array (whatever its shape: a match on the type, a classifier of the value, a table of predicates); the shape-based forms apply only when that evaluation is not possible."
 )
 ASSUMPTIONS = ["the pairwise merge functions compute intersections (not decided)"]
 
@@ -428,8 +429,91 @@ TYPE_KINDS = {"Null": {"null"}, "Boolean": {"bool"}, "Object": {"object"}, "Arra
               "Number": {"u64", "big", "neg", "float"}, "Integer": {"u64", "big", "neg"}}
 
 
+def d5_by_evaluation(facts, rep):
+    """The instance-type test, whatever its shape: the fn that takes the schema's `type` and a JSON value is evaluated
+    (rules/minirust.py) for every JSON Schema type x every kind of JSON value, alone and inside a type array. A value of a
+    kind the type admits must be accepted (an integer is a number). -> True if evaluable."""
+    import minirust as mr
+    c = facts.impl
+    cands = []
+    for h in c.user_fns():
+        ins = c.fns.get(h["fn"], {}).get("inputs", [])
+        if len(ins) == 2 and "SingleOrVec<schemars::schema::InstanceType>" in ins[0] and ins[0].startswith("std::option::Option<") and "Value" in ins[1]:
+            cands.append(h)
+    if len(cands) != 1:
+        return False
+    h = cands[0]
+
+    def jv(kind):
+        if kind == "null":
+            return ("ctor", "Null", [])
+        if kind == "bool":
+            return ("ctor", "Bool", [True])
+        if kind in ("u64", "big", "neg", "float"):
+            return ("ctor", "Number", [("num", kind)])
+        if kind == "string":
+            return ("ctor", "String", ["s"])
+        if kind == "array":
+            return ("ctor", "Array", [[]])
+        return ("ctor", "Object", [("map", {})])
+
+    def kind_of(v):
+        if isinstance(v, tuple) and v and v[0] == "ctor":
+            return {"Null": "null", "Bool": "bool", "String": "string", "Array": "array", "Object": "object"}.get(v[1]) or (v[2][0][1] if v[1] == "Number" else None)
+        if isinstance(v, tuple) and v and v[0] == "num":
+            return v[1]
+        return None
+    import kinds as K_
+
+    def is_hook(name):
+        def f_(mach, recv, *a_):
+            k_ = kind_of(recv)
+            if k_ is None:
+                raise mr.Unknown("%s on %r" % (name, recv))
+            return k_ in K_.IS[name]
+        return f_
+    hooks = {n_: is_hook(n_) for n_ in K_.IS}
+    hooks["from_ref"] = lambda mach, x_: [x_]
+    hooks["to_string"] = lambda mach, *a_: "s"
+
+    def as_hook(name):
+        def f_(mach, recv, *a_):
+            k_ = kind_of(recv)
+            return mr.some(("v", k_)) if k_ in K_.AS[name] else mr.NONE
+        return f_
+    for n_ in K_.AS:
+        hooks[n_] = as_hook(n_)
+    m = mr.Machine(c, hooks=hooks)
+    ALLK = ["null", "bool", "u64", "big", "neg", "float", "string", "array", "object"]
+    miss = {}
+    n = 0
+    try:
+        for T, need in TYPE_KINDS.items():
+            for k_ in ALLK:
+                for shape in ("single", "vec"):
+                    it = ("ctor", "Single", [("ctor", T, [])]) if shape == "single" else ("ctor", "Vec", [[("ctor", "Object" if T != "Object" else "Array", []), ("ctor", T, [])]])
+                    m.fuel = 50000
+                    r_ = m.run_fn(h, [mr.some(it), jv(k_)])
+                    n += 1
+                    acc = isinstance(r_, tuple) and r_ and r_[0] == "Ok" or r_ is True
+                    if k_ in need and not acc:
+                        miss.setdefault(T, set()).add(k_)
+    except mr.Unknown as e_:
+        rep.info("C09.D5 not evaluable (%s): the shape-based forms decide" % e_)
+        return False
+    rep.floor("C09.D5", "instance-type test over a JSON value", 1, 1)
+    for T, need in TYPE_KINDS.items():
+        bad = sorted(miss.get(T, ()))
+        rep.ob("C09.D5", "type-admits-its-kinds:%s" % T, not bad, "%s admits %s (evaluated alone and inside a type array)" % (T, sorted(need)) if not bad else
+               "the test for JSON Schema type `%s` rejects %s values: valid enum values of that kind are filtered out of a merged schema, so the generated type rejects valid instances" % (T.lower(), "/".join(bad)), c.fns[h["fn"]].get("sp"))
+    rep.floor("C09.D5", "JSON Schema types with an arm", len(TYPE_KINDS), 7)
+    return True
+
+
 def run_d5(facts, rep, tier):
     import kinds
+    if d5_by_evaluation(facts, rep):
+        return
     c = facts.impl
     sites = []
     for h in c.user_fns():
